@@ -1140,6 +1140,27 @@ def r78(e: Engine, rep: Report, rule: str = 'R7.8'):
                     # that across the merge of its returns)
                     truthy = common.unguarded_path(
                         e, g, n, [(True, key)]) is None
+                if not (boolean(v) or truthy) and isinstance(v, ast.Name):
+                    # what a helper of the class handed back: whether it is
+                    # non-empty was settled inside the helper (its argument
+                    # test), which is not carried to the caller's name
+                    ds = common.reaching_defs(g, n, path_of(v, n.frame))
+                    if ds and any(
+                            d is not None and isinstance(d.ast, ast.Assign)
+                            and isinstance(d.ast.value, ast.Call) and
+                            isinstance(d.ast.value.func, ast.Attribute) and
+                            isinstance(d.ast.value.func.value, ast.Name) and
+                            d.ast.value.func.value.id == 'self'
+                            for d in ds):
+                        rep.unknown(rule, m.qname, 'flag self.%s is set to '
+                                    'a value that is truthy whenever the '
+                                    'command was accepted' % t.attr,
+                                    '`%s` comes out of a helper of the '
+                                    'class; whether it can be empty is '
+                                    'decided by tests inside that helper, '
+                                    'which this rule does not carry over'
+                                    % ast.unparse(v), loc=n.loc())
+                        continue
                 rep.check(boolean(v) or truthy, rule, m.qname,
                           'flag self.%s is set to a value that is truthy '
                           'whenever the command was accepted' % t.attr,
